@@ -10,6 +10,7 @@ import (
 	"math/big"
 	"os"
 	"path/filepath"
+	"strconv"
 
 	"github.com/klauspost/compress/zstd"
 	"github.com/nspcc-dev/neofs-node/pkg/local_object_storage/blobstor/common"
@@ -232,8 +233,34 @@ func rangeEngine(c *runCtx) error {
 						continue
 					}
 				}
+				if ov, ok := o.kv["ovl"]; ok && err == nil && rc != nil {
+					// a second range stream of ANOTHER object is opened, drained and closed while this one is
+					// still open and unread: streams must not share state (buffers)
+					osz, _ := strconv.Atoi(ov)
+					oaddr := rangeAddr(kind, osz)
+					var orc io.ReadCloser
+					var oerr error
+					switch kind {
+					case "fstree", "fstreez":
+						_, _, orc, oerr = lay.plain.GetRangeStream(oaddr, common.PayloadRange{}, false)
+					case "combined":
+						_, _, orc, oerr = lay.comb.GetRangeStream(oaddr, common.PayloadRange{}, false)
+					case "shard":
+						_, _, orc, oerr = lay.shard.GetRangeStream(oaddr.Container(), oaddr.Object(), common.PayloadRange{}, false)
+					case "wcshard":
+						_, _, orc, oerr = lay.wshard.GetRangeStream(oaddr.Container(), oaddr.Object(), common.PayloadRange{}, false)
+					case "engine":
+						_, orc, oerr = lay.eng.GetRangeStream(context.Background(), oaddr, common.PayloadRange{}, false)
+					}
+					if oerr == nil && orc != nil {
+						od, _ := io.ReadAll(orc)
+						orc.Close()
+						c.oracle("overlapping-stream-bytes-are-the-payload", string(od) == string(detPayload(osz, osz)),
+							fmt.Sprintf("%s: full read of size %d opened while another stream was open returned %d bytes", kind, osz, len(od)))
+					}
+				}
 				wo, wl, wok := refSlice(mode, first, second, uint64(size))
-				desc := fmt.Sprintf("%s size=%d mode=%d first=%d second=%d hdr=%v", kind, size, mode, first, second, hdr)
+				desc := fmt.Sprintf("%s size=%d mode=%d first=%d second=%d hdr=%v ovl=%s", kind, size, mode, first, second, hdr, o.kv["ovl"])
 				if err != nil {
 					c.emit(line, "=> err "+errClass(err))
 					c.oracle("out-of-range-iff-unsatisfiable", !wok && errClass(err) == "outOfRange", desc+": "+err.Error())
@@ -344,6 +371,9 @@ func rangeEngine(c *runCtx) error {
 			api = " api=rpr"
 		} else if (kind == "fstree" || kind == "fstreez" || kind == "combined") && c.rng.IntN(3) == 0 {
 			api = " api=parts"
+		}
+		if api == "" && c.rng.IntN(4) == 0 {
+			api = fmt.Sprintf(" ovl=%d", rangeSizes[c.rng.IntN(len(rangeSizes))])
 		}
 		ops = append(ops, fmt.Sprintf("range read kind=%s size=%d mode=%d first=%d second=%d hdr=%d%s", kind, size, mode, first, second, c.rng.IntN(2), api))
 	}
